@@ -503,6 +503,9 @@ def iter_next(ip, st, ci):
     if mode[0] == "iter":
         it = ip.load(st, tg_of(ci["args"][0]))
         return vsome(iter_elem(ip, st, it, Lin.sym(mode[1])))
+    if mode[0] == "iterk":
+        it = ip.load(st, tg_of(ci["args"][0]))
+        return vsome(iter_elem(ip, st, it, lin(mode[1])))
     if mode[0] == "done":
         return vnone()
     raise Undecided("loop mode")
@@ -880,3 +883,128 @@ def mode_closure_call(ip, st, ci):
     v = ip.load(st, tg_of(be))
     st.events.append(("driver_call", ci["fn"]["path"], v))
     return vunit()
+
+
+# ---------------------------------------------------------------- Option / Result combinators, zeroize
+@prim("Option::<T>::and_then", "Option::<T>::map")
+def option_and_then(ip, st, ci):
+    v, clo = ci["args"]
+    if v[0] != "enum":
+        raise Undecided("Option combinator on %s" % v[0])
+    if v[3] == "None":
+        return v
+    is_map = ci["fn"]["name"] == "map"
+    if clo[0] == "closure":
+        out = []
+        for s2, r in _call_closure(ip, st, ci, clo, [v[4][0]]):
+            out.append((s2, vsome(r) if is_map else r))
+        return out
+    if clo[0] == "fn":
+        # path to a function item used as the callback
+        ci2 = dict(ci)
+        ci2["fn"] = clo[1]
+        ci2["args"] = [v[4][0]]
+        ci2["argops"] = [ci["argops"][0]]
+        out = []
+        for s2, r in ip.call(st, ci2):
+            out.append((s2, vsome(r) if is_map else r))
+        return out
+    raise Undecided("Option combinator with %s callback" % clo[0])
+
+
+@prim("Option::<&T>::cloned", "Option::<&T>::copied", "Option::<&mut T>::cloned", "Option::<&mut T>::copied")
+def option_cloned(ip, st, ci):
+    v = ci["args"][0]
+    if v[0] != "enum":
+        raise Undecided("Option::cloned on %s" % v[0])
+    if v[3] == "None":
+        return v
+    return vsome(ip.load(st, tg_of(v[4][0])))
+
+
+@prim("Option::<T>::is_some", "Option::<T>::is_none", "Result::<T, E>::is_ok", "Result::<T, E>::is_err")
+def option_is(ip, st, ci):
+    v = ci["args"][0]
+    if v[0] == "ref":
+        v = ip.load(st, v[1])
+    if v[0] != "enum":
+        raise Undecided("is_some on %s" % v[0])
+    pos = v[3] in ("Some", "Ok")
+    want = ci["fn"]["name"] in ("is_some", "is_ok")
+    return vbool(pos == want)
+
+
+@prim("Option::<T>::unwrap_or", "Result::<T, E>::unwrap_or")
+def option_unwrap_or(ip, st, ci):
+    v, d = ci["args"]
+    if v[0] != "enum":
+        raise Undecided("unwrap_or on %s" % v[0])
+    return v[4][0] if v[3] in ("Some", "Ok") else d
+
+
+@prim("core::slice::<impl [T]>::first_mut", "core::slice::<impl [T]>::first")
+def first_mut(ip, st, ci):
+    tg = tg_of(ci["args"][0])
+    esz = ip.sizeof(crate(ci), fn_targs(ci)[0])
+    total = ip.tlen(st, tg)
+    out = []
+    for s2, nonempty in fork_on(st, ("ge", total - esz)):
+        out.append((s2, vsome(vref(ip.br(tg, ZERO, esz))) if nonempty else vnone()))
+    return out
+
+
+@prim("Array::last", "Array::first")
+def array_last(ip, st, ci):
+    tg = tg_of(ci["args"][0])
+    esz = ip.sizeof(crate(ci), fn_targs(ci)[0])
+    total = ip.tlen(st, tg)
+    off = total - esz if ci["fn"]["name"] == "last" else ZERO
+    out = []
+    for s2, nonempty in fork_on(st, ("ge", total - esz)):
+        out.append((s2, vsome(vref(ip.br(tg, off, esz))) if nonempty else vnone()))
+    return out
+
+
+@prim("Zeroize::zeroize")
+def zeroize(ip, st, ci):
+    tg = tg_of(ci["args"][0])
+    v = ip.load(st, tg)
+    if v[0] == "bytes":
+        ip.store(st, tg, vbytes(T.bzero(T.blen(v[1]))))
+    elif v[0] == "int":
+        ip.store(st, tg, vint(T.iconst(v[1][1], 0)))
+    elif v[0] == "size":
+        ip.store(st, tg, vsize(0))
+    else:
+        raise Undecided("zeroize of %s" % v[0])
+    return vunit()
+
+
+@prim("core::slice::<impl [T]>::is_empty")
+def slice_is_empty(ip, st, ci):
+    tg = tg_of(ci["args"][0])
+    return vbool(("eq", ip.tlen(st, tg)))
+
+
+@prim("core::cmp::min", "core::cmp::Ord::min")
+def cmp_min(ip, st, ci):
+    a, b = ci["args"]
+    if a[0] == "size" and b[0] == "size":
+        out = []
+        for s2, le in fork_on(st, ("ge", b[1] - a[1])):
+            out.append((s2, a if le else b))
+        return out
+    raise Undecided("min of %s" % a[0])
+
+
+@prim("InOutBuf::get")
+def iobuf_get(ip, st, ci):
+    b = iob(ip, st, ci["args"][0])
+    pos = ci["args"][1]
+    total = ip.tlen(st, b[1])
+    ok = st.F.prove_ge(pos[1]) and st.F.prove_ge(total - (pos[1] + 1) * b[3])
+    oblig(st, ci, "bounds:InOutBuf::get", ok, "%r < %r/%r" % (pos[1], total, b[3]))
+    if not ok:
+        st.F.add_ge(pos[1])
+        st.F.add_ge(total - (pos[1] + 1) * b[3])
+    return mk_inout(ip.br(b[1], pos[1] * b[3], b[3]), ip.br(b[2], pos[1] * b[3], b[3]))
